@@ -1102,9 +1102,9 @@ Section Invariant.
   Proof.
     intros s0 s H. unfold while_loop.
     set (s1 := set_ctx s _). assert (H1 : ext s0 s1) by now apply ext_set_ctx.
-    assert (K : forall r : R, ext s0 (snd r) ->
-      ext s0 (snd (match w_stop w, w_max w with None, None => (OUnsup, s1) | _, _ => r end))).
-    { intros r Hr. destruct (w_stop w), (w_max w); auto. }
+    assert (K : forall (r : R) nm ms, ext s0 (snd r) ->
+      ext s0 (snd (match w_stop w, w_max w with None, None => raise_new nm ms s1 | _, _ => r end))).
+    { intros r nm ms Hr. destruct (w_stop w), (w_max w); auto. now apply ext_raise_new. }
     apply K. clear K.
     repeat (apply ext_lift; [exact H1|intros ?]).
     match goal with |- ext _ (snd (if ?x then _ else _)) => destruct x; auto end.
